@@ -302,7 +302,7 @@ pub const STATE_NAMES: [&str; 9] = ["Error", "Key", "ObjectValue", "KeyValueSepa
 
 /// the private machine fields, read from the derived `Debug` output
 /// (mode, depth stack bottom→top, state, needs_line_terminator, mixed_mode)
-fn debug_fields(w: &TextWriter<Vec<u8>>) -> Option<(String, Vec<String>, String, String, String)> {
+fn debug_fields<W: std::io::Write + std::fmt::Debug>(w: &TextWriter<W>) -> Option<(String, Vec<String>, String, String, String)> {
     let d = format!("{:?}", w);
     let after = |from: usize, key: &str| -> Option<usize> { d[from..].find(key).map(|p| from + p + key.len()) };
     let upto = |from: usize, ends: &[char]| -> String { d[from..].chars().take_while(|c| !ends.contains(c)).collect() };
@@ -320,7 +320,7 @@ fn debug_fields(w: &TextWriter<Vec<u8>>) -> Option<(String, Vec<String>, String,
     Some((mode, depth, state, nlt, mixed))
 }
 
-fn st_string(w: &TextWriter<Vec<u8>>) -> String {
+fn st_string<W: std::io::Write + std::fmt::Debug>(w: &TextWriter<W>) -> String {
     match debug_fields(w) {
         None => "st:?".to_string(),
         Some((mode, depth, state, nlt, mixed)) => {
@@ -374,11 +374,12 @@ pub fn exec(w: &[&str], obs: &mut Obs) -> Option<String> {
             s.push_str(&r.st);
             Some(s)
         }
-        // implementation-only: the same calls into a writer that takes <cap> bytes and then fails.  No call may
-        // panic; what reached the writer is a prefix of the full output; every call up to the first one that needs
-        // more room returns what it returns with an unlimited writer, that one returns Err(io); when the output
-        // fits, nothing fails.
-        ["x-wcallsw", c, f, cap_s, rest @ ..] => {
+        // the same calls into a writer that takes <cap> bytes and then fails (model: Model/WriterSink.lean,
+        // C15_failing_sink).  Result: bytes that reached the sink, per call the observation or the error, the
+        // private state at the end — after a failed call too (`&mut self` keeps what the call did before the `?`).
+        // Oracle: no call panics; the sink holds a prefix of the full output; an I/O error happens iff the
+        // output does not fit; before the first I/O error every call answers as with an unlimited writer.
+        ["wcallsw", c, f, cap_s, rest @ ..] => {
             let ic: u8 = c.parse().ok()?;
             let fac: u8 = f.parse().ok()?;
             let cap: usize = cap_s.parse().ok()?;
@@ -387,20 +388,30 @@ pub fn exec(w: &[&str], obs: &mut Obs) -> Option<String> {
             let full = run_real(ic, fac, &calls);
             let mut sink = crate::props::c14::FailingWriter { cap, got: vec![] };
             let mut first_io: Option<usize> = None;
+            let mut rows: Vec<String> = vec![];
+            let st;
             {
                 let mut wr = TextWriterBuilder::new().indent_char(ic).indent_factor(fac).from_writer(&mut sink);
                 for (i, call) in calls.iter().enumerate() {
                     let r = apply(&mut wr, call);
                     let io = matches!(r.as_ref().err().map(|e| e.kind()), Some(jomini::ErrorKind::Io(_)));
                     if io && first_io.is_none() { first_io = Some(i); }
-                    if first_io.is_none() {
-                        // before the writer is full every call behaves as with an unlimited writer
-                        let same = match (&r, &full.rows[i]) { (Ok(()), Ok(_)) => true, (Err(_), Err(_)) => true, _ => false };
-                        if !same { obs.violation("failing-writer-call-result", &case, &format!("call {}: {:?} vs unlimited {:?}", i, r.is_ok(), full.rows[i].is_ok())); }
+                    let row = match &r {
+                        Ok(()) => Ok(ObsRow { depth: wr.depth(), key: wr.expecting_key(), arr: wr.at_array_value(), unk: wr.at_unknown_start() }),
+                        Err(e) => Err(match e.kind() {
+                            jomini::ErrorKind::StackEmpty { .. } => "err:stackempty".to_string(),
+                            jomini::ErrorKind::Io(_) => "err:io".to_string(),
+                            _ => "err:other".to_string(),
+                        }),
+                    };
+                    if first_io.is_none() && row != full.rows[i] {
+                        obs.violation("failing-writer-call-result", &case, &format!("call {}: {:?} vs unlimited {:?}", i, row, full.rows[i]));
                     }
+                    rows.push(match row { Ok(o) => format!("{}/{}{}{}", o.depth, o.key as u8, o.arr as u8, o.unk as u8), Err(e) => e });
                 }
                 // `inner()` hands out the sink without consuming the writer
                 if wr.inner().got.len() > cap { obs.violation("failing-writer-prefix", &case, "the sink holds more than its capacity"); }
+                st = st_string(&wr);
             }
             if !full.out.starts_with(&sink.got) || sink.got.len() != cap.min(full.out.len()) {
                 obs.violation("failing-writer-prefix", &case, &format!("writer got {} full output {}", hex(&sink.got), hex(&full.out)));
@@ -409,7 +420,11 @@ pub fn exec(w: &[&str], obs: &mut Obs) -> Option<String> {
                 obs.violation("failing-writer-result", &case, &format!("cap {} output length {} first io error at call {:?}", cap, full.out.len(), first_io));
             }
             obs.count(if first_io.is_some() { "wcallsw:err" } else { "wcallsw:ok" });
-            Some(match first_io { Some(i) => format!("err:{}", i), None => "ok".to_string() })
+            let mut out = hex(&sink.got);
+            for r in &rows { out.push(' '); out.push_str(r); }
+            out.push(' ');
+            out.push_str(&st);
+            Some(out)
         }
         _ => None,
     }
@@ -569,6 +584,8 @@ struct Wf<'a> {
     why: &'static str,
     /// every element of the array being read so far is a scalar
     scalars_only: bool,
+    /// the writer's mixed mode is on: between `start_mixed_mode` and the next `write_end`
+    mixed_window: bool,
 }
 
 #[derive(Clone, Copy, PartialEq)]
@@ -602,6 +619,9 @@ impl<'a> Wf<'a> {
             let mut explicit = false;
             if let Some(Norm::Op(o)) = self.peek() {
                 op = *o; explicit = true;
+                // known finding (C14 `roundtrip-mixed-nested-operator`): with the mixed mode of an enclosing array still
+                // on, `write_operator` takes the mixed branch
+                if self.mixed_window { return self.fail("operator-under-stale-mixed-mode(known)"); }
                 self.take(After::None);
             }
             if need_explicit_first_op && !explicit { return self.fail("unknown-container-first-key-without-operator"); }
@@ -628,6 +648,7 @@ impl<'a> Wf<'a> {
                 let end = self.toks.len();
                 self.push_tok(format!("E{}", start));
                 self.toks[start] = format!("A{}", end);
+                self.mixed_window = false;
                 self.take(after);
                 Some(())
             }
@@ -670,39 +691,57 @@ impl<'a> Wf<'a> {
                     is_obj = true;
                 } else {
                     let mut n = 0;
+                    let mut in_mixed = false;
+                    let mut first_pair = true;
                     while !matches!(self.peek(), Some(Norm::E) | None) {
-                        // `start_mixed_mode` after at least one element of a `write_array_start` array, then
-                        // (scalar key, operator, scalar value)* up to `write_end`: C15_mixed_parse_back
+                        // `start_mixed_mode` after at least one element of a `write_array_start` array: from here on
+                        // `key operator value` groups, bare elements and containers (C15_parse_back_full)
                         if matches!(self.peek(), Some(Norm::Mm)) {
-                            if unknown || n == 0 || !self.scalars_only { return self.fail("mixed-mode-outside-the-proved-shape"); }
+                            if unknown || n == 0 || in_mixed { return self.fail("mixed-mode-outside-the-proved-shape"); }
                             self.take(After::Elem);
-                            let mut first = true;
-                            while let Some(Norm::Scalar(b, q, src)) = self.peek() {
-                                let o = match self.peek2() { Some(Norm::Op(o)) => *o, _ => return self.fail("mixed-pair-without-operator") };
-                                // the two shapes for which the claim is false on the real code (reported; see C15_mixed_parse_back)
+                            in_mixed = true;
+                            self.mixed_window = true;
+                            continue;
+                        }
+                        if matches!(self.peek(), Some(Norm::Op(_))) { return self.fail("operator-in-array"); }
+                        if in_mixed {
+                            if let (Some(Norm::Scalar(b, q, src)), Some(Norm::Op(o))) = (self.peek(), self.peek2()) {
+                                let o = *o;
+                                // shapes for which the claim is false on the real code (reported; see C15_mixed_parse_back,
+                                // C15_parse_back_full)
                                 if o == Op::Exists { return self.fail("mixed-exists-operator(reported)"); }
-                                if first && n == 1 && !*q && b.as_slice() == b"?" { return self.fail("mixed-bare-question-key(reported)"); }
-                                if first { self.push_tok("M".to_string()); first = false; }
+                                if first_pair && n == 1 && !*q && b.as_slice() == b"?" { return self.fail("mixed-bare-question-key(reported)"); }
+                                if !self.mixed_window { return self.fail("mixed-operator-after-container(reported)"); }
+                                if first_pair { self.push_tok("M".to_string()); first_pair = false; }
                                 self.push_scalar(b, *q, src)?;
                                 self.take(After::Elem);
                                 self.push_tok(format!("Op:{}", o.name()));
                                 self.take(After::Elem);
                                 match self.peek() {
                                     Some(Norm::Scalar(b2, q2, src2)) => { self.push_scalar(b2, *q2, src2)?; self.take(After::Elem); }
-                                    _ => return self.fail("mixed-pair-value-not-a-scalar"),
+                                    Some(Norm::S) | Some(Norm::Os) | Some(Norm::As) => {
+                                        let at = self.toks.len();
+                                        self.container(After::Elem)?;
+                                        // a container in the array part that does not start with a scalar makes the parser drop
+                                        // the mixed flag / fall back to key-value reading (C01 quirk, outside the document type)
+                                        if !self.toks.get(at + 1).map_or(false, |t| t.starts_with("U:") || t.starts_with("Q:")) { return self.fail("mixed-container-not-scalar-led(parser-quirk)"); }
+                                    }
+                                    _ => return self.fail("mixed-pair-value-expected"),
                                 }
                                 mixed_pairs += 1;
+                                n += 1;
+                                continue;
                             }
-                            if !matches!(self.peek(), Some(Norm::E)) { return self.fail("mixed-mode-outside-the-proved-shape"); }
-                            break;
                         }
-                        if matches!(self.peek(), Some(Norm::Op(_))) { return self.fail("operator-in-array"); }
-                        if !matches!(self.peek(), Some(Norm::Scalar(..))) { self.scalars_only = false; }
                         let before = self.toks.len();
                         // the first scalar of a `write_start` container leaves the kind still unknown
                         self.value(false, if unknown && n == 0 { After::None } else { After::Elem })?;
                         if n == 0 && self.toks.len() == before + 2 && self.toks[before].starts_with('A') && self.toks[before + 1].starts_with('E') {
                             return self.fail("array-first-element-empty-container(ghost)");
+                        }
+                        if in_mixed && (self.toks[before].starts_with('A') || self.toks[before].starts_with('O'))
+                            && !self.toks.get(before + 1).map_or(false, |t| t.starts_with("U:") || t.starts_with("Q:")) {
+                            return self.fail("mixed-container-not-scalar-led(parser-quirk)");
                         }
                         n += 1;
                     }
@@ -715,6 +754,7 @@ impl<'a> Wf<'a> {
             Some(Norm::E) => {}
             _ => return self.fail("unbalanced"),
         }
+        self.mixed_window = false;
         self.depth -= 1;
         self.take(after);
         let end = self.toks.len();
@@ -729,7 +769,7 @@ struct WfResult { tape: String, src: Vec<Src>, rows: Vec<ObsRow> }
 
 fn well_formed(calls: &[Call]) -> Result<WfResult, &'static str> {
     let norm: Vec<Norm> = calls.iter().map(normalize).collect();
-    let mut p = Wf { calls: &norm, pos: 0, toks: vec![], src: vec![], rows: vec![], depth: 0, why: "", scalars_only: true };
+    let mut p = Wf { calls: &norm, pos: 0, toks: vec![], src: vec![], rows: vec![], depth: 0, why: "", scalars_only: true, mixed_window: false };
     let ok = p.fields(false, After::None, false).is_some();
     if !ok { return Err(p.why); }
     if p.pos != norm.len() { return Err(if p.why.is_empty() { "key-expected" } else { p.why }); }
@@ -1219,23 +1259,52 @@ pub fn gen_c15(g: &mut Gen) {
             _ => Call::F64(f64::to_bits((rng.next() % 2_000_001) as f64 / 1000.0 - 1000.0)),
         }
     }
-    let n = g.budget(2_500, 40_000);
-    for _ in 0..n {
+    // a small container written through its own calls: array of scalars, object with implicit `=` (sometimes an
+    // explicit operator: under a stale mixed mode that is the known finding), nested once more, or a nested mixed array
+    fn mcontainer(rng: &mut Rng, depth: usize, out: &mut Vec<Call>) {
+        match rng.below(if depth < 2 { 5 } else { 2 }) {
+            0 => { out.push(Call::ArrayStart); for _ in 0..1 + rng.below(3) { let c = mscalar(rng); out.push(c); } out.push(Call::End); }
+            1 => {
+                out.push(Call::ObjectStart);
+                for _ in 0..1 + rng.below(2) {
+                    out.push(Call::Unquoted(rng.pick(&[&b"k"[..], b"x1", b"id"]).to_vec()));
+                    if rng.chance(1, 8) { out.push(Call::Operator(*rng.pick(&[Op::Eq, Op::Lt, Op::Ge]))); }
+                    let c = mscalar(rng); out.push(c);
+                }
+                out.push(Call::End);
+            }
+            2 => { out.push(Call::ObjectStart); out.push(Call::Unquoted(b"n".to_vec())); mcontainer(rng, depth + 1, out); out.push(Call::End); }
+            3 => { out.push(Call::ArrayStart); mcontainer(rng, depth + 1, out); let c = mscalar(rng); out.push(c); out.push(Call::End); }
+            _ => {
+                out.push(Call::ArrayStart); let c = mscalar(rng); out.push(c); out.push(Call::Mixed);
+                out.push(Call::Unquoted(b"m".to_vec())); out.push(Call::Operator(*rng.pick(&[Op::Eq, Op::Gt]))); let c = mscalar(rng); out.push(c);
+                out.push(Call::End);
+            }
+        }
+    }
+    let n = g.budget(4_000, 60_000);
+    for i in 0..n {
+        let with_containers = i % 2 == 1;
         let mut calls = vec![];
         let wrap = g.rng.below(4);
         for _ in 0..wrap { calls.push(Call::Unquoted(b"n".to_vec())); calls.push(Call::ObjectStart); }
         if g.rng.chance(1, 3) { calls.push(Call::Unquoted(b"p".to_vec())); calls.push(Call::Unquoted(b"q".to_vec())); }
         calls.push(Call::Unquoted(b"data".to_vec()));
         calls.push(if g.rng.chance(1, 4) { Call::Binary(BinT::Array(0)) } else { Call::ArrayStart });
-        for _ in 0..1 + g.rng.below(3) { let c = mscalar(&mut g.rng); calls.push(c); }
+        for _ in 0..1 + g.rng.below(3) {
+            if with_containers && g.rng.chance(1, 4) { mcontainer(&mut g.rng, 0, &mut calls); } else { let c = mscalar(&mut g.rng); calls.push(c); }
+        }
         calls.push(if g.rng.chance(1, 4) { Call::Binary(BinT::Mixed) } else { Call::Mixed });
-        let pairs = g.rng.below(4);
-        for i in 0..pairs {
+        let groups = g.rng.below(5);
+        for i in 0..groups {
+            // a bare element, a container element, or a `key operator value` group
+            if with_containers && g.rng.chance(1, 6) { let c = mscalar(&mut g.rng); calls.push(c); continue; }
+            if with_containers && g.rng.chance(1, 6) { mcontainer(&mut g.rng, 0, &mut calls); continue; }
             let key = if i == 0 && g.rng.chance(1, 40) { Call::Unquoted(b"?".to_vec()) } else { mscalar(&mut g.rng) };
             calls.push(key);
             let op = if g.rng.chance(1, 25) { Op::Exists } else { *g.rng.pick(&[Op::Eq, Op::Eq, Op::Lt, Op::Le, Op::Gt, Op::Ge, Op::Ne, Op::Exact]) };
             calls.push(if op == Op::Eq && g.rng.chance(1, 4) { Call::Binary(BinT::Equal) } else { Call::Operator(op) });
-            let c = mscalar(&mut g.rng); calls.push(c);
+            if with_containers && g.rng.chance(1, 4) { mcontainer(&mut g.rng, 0, &mut calls); } else { let c = mscalar(&mut g.rng); calls.push(c); }
         }
         calls.push(Call::End);
         if g.rng.chance(1, 2) { calls.push(Call::Unquoted(b"z".to_vec())); calls.push(Call::I32(1)); }
@@ -1255,7 +1324,7 @@ pub fn gen_c15(g: &mut Gen) {
     for calls in &fixed {
         let len = run_real(b' ', 2, calls).out.len();
         let tail: String = calls.iter().map(call_token).collect::<Vec<_>>().join(" ");
-        for cap in 0..=len + 1 { g.emit(format!("x-wcallsw 32 2 {} {}", cap, tail)); }
+        for cap in 0..=len + 1 { g.emit(format!("wcallsw 32 2 {} {}", cap, tail)); }
     }
     let n = g.budget(400, 8_000);
     for _ in 0..n {
@@ -1266,7 +1335,22 @@ pub fn gen_c15(g: &mut Gen) {
         let len = run_real(b' ', 2, &calls).out.len();
         let cap = g.rng.below(len + 3);
         let tail: String = calls.iter().map(call_token).collect::<Vec<_>>().join(" ");
-        g.emit(format!("x-wcallsw 32 2 {} {}", cap, tail));
+        g.emit(format!("wcallsw 32 2 {} {}", cap, tail));
+    }
+    // arbitrary (mostly ill-formed) call lists, mixed mode, rgb, write_start: every cap for short lists
+    let n = g.budget(500, 10_000);
+    for i in 0..n {
+        let len = 1 + g.rng.size(9);
+        let calls: Vec<Call> = (0..len).map(|_| random_call(&mut g.rng)).collect();
+        let (ic, fac) = indent_cfg(&mut g.rng);
+        let out_len = run_real(ic, fac, &calls).out.len();
+        let tail: String = calls.iter().map(call_token).collect::<Vec<_>>().join(" ");
+        if i % 10 == 0 && out_len <= 40 {
+            for cap in 0..=out_len + 1 { g.emit(format!("wcallsw {} {} {} {}", ic, fac, cap, tail)); }
+        } else {
+            let cap = g.rng.below(out_len + 3);
+            g.emit(format!("wcallsw {} {} {} {}", ic, fac, cap, tail));
+        }
     }
     g.count("failing-writer");
 }
